@@ -38,6 +38,8 @@ def plain(obj):
 	if isinstance(obj, dict):
 		return {str(k): plain(v) for k, v in obj.items()}
 	if isinstance(obj, (list, tuple)):
+		if len(obj) > 40:
+			return [plain(v) for v in obj[:20]] + [f"... ({len(obj) - 40} more) ..."] + [plain(v) for v in obj[-20:]]
 		return [plain(v) for v in obj]
 	if obj is None or isinstance(obj, (bool, int, str)):
 		if isinstance(obj, int) and abs(obj) > 2**53:
